@@ -123,7 +123,11 @@ class DictDocument(ProtocolBase):
     def create_out_string(self, ctx, out_string_encoding='utf8'):
         raise NotImplementedError()
 
-    def _check_freq_dict(self, cls, d, fti=None):
+    def _check_freq_dict(self, cls, d, fti=None, array_items=True):
+        """``array_items`` says what was counted for a member that is an
+        array: its items (flat documents) or the member itself (hierarchical
+        documents, where the array is one value)."""
+
         if fti is None:
             fti = cls.get_flat_type_info(cls)
 
@@ -133,7 +137,8 @@ class DictDocument(ProtocolBase):
             attrs = self.get_cls_attrs(v)
             min_o, max_o = attrs.min_occurs, attrs.max_occurs
 
-            if issubclass(v, Array) and v.Attributes.max_occurs == 1:
+            if array_items and issubclass(v, Array) \
+                                            and v.Attributes.max_occurs == 1:
                 v, = v._type_info.values()
                 attrs = self.get_cls_attrs(v)
                 min_o, max_o = attrs.min_occurs, attrs.max_occurs
